@@ -14,7 +14,7 @@ from declib2 import fill, Dec2, gen_block, spec, model1, has_zero_offset
 from capi import Lib
 from vlib import Oracle, build_lib, hx, md5
 
-THEOREMS = ["C05_valid_decodes", "C05_valid_decodes_safe", "C05_continue_step", "C05_success_sound", "C05_success_sound_strict_refuted", "C05_inplace_margin", "C05_fast_valid", "C05_fast_usingDict_valid", "C05_fast_continue_step", "C05_inplace_step_footprint", "C05_inplace_footprint_partial", "C05_inplace_decodes", "C05_inplace_decodes_any_margin", "C05_inplace_margin32_refuted"]
+THEOREMS = ["C05_valid_decodes", "C05_valid_decodes_safe", "C05_continue_step", "C05_success_sound", "C05_success_sound_strict_refuted", "C05_inplace_margin", "C05_fast_valid", "C05_fast_usingDict_valid", "C05_fast_continue_step", "C05_inplace_step_footprint", "C05_inplace_footprint_partial", "C05_inplace_decodes", "C05_inplace_decodes_any_margin", "C05_inplace_margin32_refuted", "C05_continue_session", "C05_session_init", "C05_continue_session_contiguous", "C05_continue_session_ring", "C05_continue_three_segments_refuted", "C05_ring_min_refuted"]
 ORACLES = ["block", "dec2"]
 CORRESPONDENCE = [
     "dec_generic/decompress_usingDict model == LZ4_decompress_safe(_usingDict) on valid blocks (return value, whole destination image), fast loop on",
@@ -278,6 +278,55 @@ def check_stream(st, rng, res, geom, big, edge=False):
                      (geom, i, m[0], m[1], m[2], rec["ret"], rec["state"], "same" if m[3] == md5(rec["img"]) else "differs"), geom=geom, build=bname, block=i)
                 break
 
+def check_ringmin(st, rng, res):
+    """decoding ring buffer of exactly LZ4_decoderRingBufferSize(maxblock) bytes (the documented minimum), wrapped by the
+    documented rule; the block decoded at the wrap references the oldest bytes the format can reach.  Property: every call
+    returns the decoded size with the right content.  Correspondence: the wrap call == Model/DecRingWrap.v (dictionary and
+    destination in one memory), return value and the whole ring afterwards."""
+    from capi import Buf
+    blocks, maxblock, lap = declib2.gen_ringmin(rng)
+    for b in (blocks[0], blocks[-2], blocks[-1]):
+        D = spec(st["spec"], "strict", b["hist"], b["blk"])
+        if D is None or D != b["content"]:
+            fail(res, "harness_error", "ringmin generator produced a block the specification does not accept as generated", blk=b["blk"].hex()[:2000])
+            return
+    salt = rng.randrange(200)
+    for bname, dec in st["libs"].items():
+        L = dec.lib
+        size = L.decoderRingBufferSize(maxblock)
+        ring = Buf(size, data=fill(size, salt))
+        sd = Buf(32)
+        L.setStreamDecode(sd.p, None, 0)
+        pos = 0
+        wrapped = False
+        for i, b in enumerate(blocks):
+            n = len(b["content"])
+            before = None
+            if size - pos < maxblock:
+                before, lapsize, pos, wrapped = ring.bytes(size, 0), pos, 0, True
+            srcb = Buf(len(b["blk"]), data=b["blk"])
+            r = L.decompress_safe_continue(sd.p, srcb.p, ring.p + pos, len(b["blk"]), maxblock)
+            srcb.free()
+            res["evals"] += 1
+            res["stats"]["stream_ringmin"] += 1
+            after = ring.bytes(size, 0)
+            if before is not None and i == len(blocks) - 1:
+                mr, mok, mimg = declib2.model_ringwrap(st["dec2"], bname == "fast1", before, lapsize, b["blk"], maxblock)
+                res["stats"]["model_calls_ringwrap"] += 1
+                if mok != "ok" or mr != r or mimg != md5(after):
+                    fail(res, "corr_fail", "DecRingWrap model/code disagree at the ring wrap: model ret=%d %s code ret=%d ring %s" % (mr, mok, r, "same" if mimg == md5(after) else "differs"),
+                         geom="ringmin", build=bname, blk=b["blk"].hex(), lap=lapsize, maxblock=maxblock)
+            if r != n or after[pos:pos + n] != b["content"]:
+                got = after[pos:pos + n]
+                first = next((k for k in range(min(len(got), n)) if got[k] != b["content"][k]), -1)
+                fail(res, "prop_fail", "LZ4_decompress_safe_continue in a ring buffer of LZ4_decoderRingBufferSize(%d) = %d bytes: block %d (decoded at ring offset %d after a lap of %d bytes) returned %d (expected %d), content %s (first wrong byte at %d)"
+                     % (maxblock, size, i, pos, lap, r, n, "equal" if got == b["content"] else "DIFFERS", first),
+                     geom="ringmin", build=bname, block=i, blk=b["blk"].hex(), lap=lap, maxblock=maxblock, ring=size)
+                break
+            pos += n
+        res["keys"].add(hashlib.sha1(b"ringmin|" + blocks[-1]["blk"]).hexdigest())
+        ring.free(); sd.free()
+
 F5_BLOCK = bytes.fromhex("10410000506263646566")
 
 def run_case(st, case):
@@ -320,6 +369,9 @@ def run_case(st, case):
                 blk = bytes(rng.choice([0, 1, 0x0f, 0x10, 0xf0, 0xff, rng.randrange(256)]) for _ in range(n))
                 Dlen = rng.choice([0, 10, 100, 1000])
             check_converse(st, rng, res, blk, hist, Dlen)
+    elif kind == "ringmin":
+        for j in range(case["count"]):
+            check_ringmin(st, rng, res)
     elif kind == "inplace":
         # in-place decoding at the documented margin: blocks whose tail keeps the input cursor as close to the
         # output cursor as the format allows (match lengths = 1, 2, 3 mod 32 so that LZ4_wildCopy32 overshoots by
